@@ -113,7 +113,8 @@ def check_tree(res, verdict, inv, umask=0o022, t_start_ns=None, fault_exempt=(),
     feat = features(inv, verdict, pre)
 
     # --- rule 1: sources and bystanders are never modified (any outcome) ---------------------------
-    mapped_paths = set(verdict.expect.keys()) if verdict.kind in ("expect", "mustfail") else set()
+    partial = verdict.kind == "undefined" and verdict.why == "two-sources-one-target"
+    mapped_paths = set(verdict.expect.keys()) if (verdict.kind in ("expect", "mustfail") or partial) else set()
     mapped_objs = set()
     for p in mapped_paths:
         e = pre.get(p)
@@ -145,7 +146,7 @@ def check_tree(res, verdict, inv, umask=0o022, t_start_ns=None, fault_exempt=(),
             continue  # the same inode is reachable through a destination path (hard link): overwriting it is legal
         q = post.get(p)
         under_dest = dest_n is not None and (p == dest_n or p.startswith(dest_n + "/")) and not is_source
-        if verdict.kind == "undefined" and under_dest:
+        if verdict.kind == "undefined" and under_dest and not (partial and p not in mapped_paths and e["k"] != "d"):
             continue  # outside the model domain: nothing is claimed about the destination (sources and bystanders still are)
         if under_dest:
             prop, cls = ("C08", "existing-entry-altered") if fl.get("n") else ("C02", "unmapped-entry-altered")
